@@ -36,6 +36,9 @@ type c11Op struct {
 	// start: the final flow of upkeep type T is started at this instant (its 1 s ticker with it).
 	// tick:  that flow's ticker fires at this instant (declared by the history, performed by the real
 	//        ticker); the payload builder's behaviour for the tick's batch call:
+	// obs (plugin mode): one Observation call; First = no previous outcome, otherwise the previous outcome
+	// carries Surfaced.  Result: the proposals of the returned observation.
+	First   bool  `json:"first,omitempty"`
 	Sleep   int64 `json:"sleep"`   // how long BuildPayloads takes (ns)
 	Fail    int   `json:"fail"`    // < 0: no error; otherwise it fails at argument index Fail % len(args)
 	Partial bool  `json:"partial"` // a failing call returns the payloads built so far with the error
@@ -47,6 +50,12 @@ type c11Type struct {
 type c11Input struct {
 	Types []c11Type `json:"types"` // upkeep id -> type as reported by the type getter (filled by the run function)
 	Ops   []c11Op   `json:"ops"`
+	// "" = the stores, hooks and final flows driven directly; "plugin" = one plugin instance built by the
+	// public factory (c11_plugin_test.go); "stress" = concurrent remove/add/view in a child process
+	// (c11_stress_test.go)
+	Mode   string       `json:"mode,omitempty"`
+	Decoy  bool         `json:"decoy,omitempty"` // plugin mode: another instance of the same factory is built and closed first
+	Stress *c11StressIn `json:"stress,omitempty"`
 }
 type c11Impl struct {
 	// one entry per op; null for operations without a result.  view: the result; deq: the result as read
@@ -57,6 +66,13 @@ type c11Impl struct {
 	Aux [][]JProp `json:"aux"`
 	// final-flow ticks / runner calls the history does not declare, and declared ticks that did not happen
 	Extra int `json:"extra"`
+	// plugin mode: an error returned by Observation / decoding
+	Err string `json:"err,omitempty"`
+	// stress mode
+	Exit  string          `json:"exit,omitempty"`  // "ok", "exit:<code>", "timeout"
+	Crash string          `json:"crash,omitempty"` // first "fatal error:" / "panic:" line of the child
+	Final []JProp         `json:"final"`           // the view after the concurrent phase
+	Views []c11StressView `json:"views,omitempty"`
 }
 
 const (
@@ -153,6 +169,10 @@ func c11Run(t *testing.T, in *c11Input) c11Impl {
 	}
 	sort.Slice(in.Types, func(a, b int) bool { return in.Types[a].UID < in.Types[b].UID })
 	return impl
+}
+
+func sortC11Types(ts []c11Type) {
+	sort.Slice(ts, func(a, b int) bool { return ts[a].UID < ts[b].UID })
 }
 
 // ---------------------------------------------------------------- generators
@@ -915,10 +935,21 @@ func TestC11(t *testing.T) {
 		for _, op := range in.Ops {
 			em.Hit("op:" + op.Op)
 		}
-		synctest.Test(t, func(t *testing.T) {
-			impl := c11Run(t, &in)
+		switch in.Mode {
+		case "stress":
+			impl := c11RunStress(t, &in)
 			em.Emit(src, in, impl)
-		})
+		case "plugin":
+			synctest.Test(t, func(t *testing.T) {
+				impl := c11RunPlugin(t, &in)
+				em.Emit(src, in, impl)
+			})
+		default:
+			synctest.Test(t, func(t *testing.T) {
+				impl := c11Run(t, &in)
+				em.Emit(src, in, impl)
+			})
+		}
 	}
 	names, raws, replayOnly := corpusInputs(t, "C11")
 	for i, raw := range raws {
@@ -937,9 +968,21 @@ func TestC11(t *testing.T) {
 	for _, in := range c11FlowEdge() {
 		runOne("edge", in)
 	}
+	for _, in := range c11PluginEdge() {
+		runOne("edge", in)
+	}
 	r := NewRng(seed())
 	n := tierN(3000, 30000)
 	for i := 0; i < n; i++ {
 		runOne("gen", c11Gen(r, em))
+	}
+	// plugin level: one instance, Observation after Observation (own stream, so the case mix above is unchanged)
+	rp := NewRng(seed() ^ 0x11c11)
+	for i, np := 0, tierN(150, 1500); i < np; i++ {
+		runOne("gen", c11GenPlugin(rp, em))
+	}
+	// concurrent remove / add / view in a child process (a runtime abort cannot be recovered in-process)
+	for _, in := range c11StressInputs(seed(), tierN(24, 120)) {
+		runOne("gen", in)
 	}
 }
